@@ -260,6 +260,9 @@ def judge_c02(rec):
     ncleanup = sum(1 for e in rec['events'] if e[0] == 'cleanup')
     if ncleanup != 1:
         bad('cleanup-count', 'registered cleanup ran %d times' % ncleanup)
+    nrelease = sum(1 for e in rec['events'] if e[0] == 'cleanup-release')
+    if nrelease != 2 and not rec['case'].get('recreate') and not any(a['kind'] == 'reincarnate' for a in rec.get('acts', ())):
+        bad('cleanup-count', 'a bound method registered twice as a cleanup ran %d times' % nrelease)
     if rec['case'].get('failing_cleanups'):
         nafter = sum(1 for e in rec['events'] if e[0] == 'cleanup-after-failing')
         if nafter != 1:
